@@ -31,7 +31,7 @@ type arrival struct {
 var dgClasses = []string{"valid", "short", "long", "wrong-serial", "serial-0", "wrong-code", "wrong-som", "malformed"}
 
 // one call of GetCardByID through the real driver against a scripted responder
-func drvCase(c *ctx, r *rng.R, path string, bind int, arr []arrival, special string) (string, string) {
+func drvCase(c *ctx, r *rng.R, path string, bind int, arr []arrival, special string, debug bool) (string, string) {
 	serial := uint32(405419896)
 	card := uint32(8165538)
 	steps := func(req []byte) []step {
@@ -66,7 +66,7 @@ func drvCase(c *ctx, r *rng.R, path string, bind int, arr []arrival, special str
 		}
 	}
 	defer closeFn()
-	u := newRealClient(clientCfg{path, bind, ""}, serial, endpoint)
+	u := newRealClient(clientCfg{path, bind, "", debug}, serial, endpoint)
 	t0 := time.Now()
 	res, err := getCard(u, serial, card)
 	el := time.Since(t0)
@@ -82,7 +82,11 @@ func drvCase(c *ctx, r *rng.R, path string, bind int, arr []arrival, special str
 	for _, a := range arr {
 		ats = append(ats, fmt.Sprintf("%d:%s", a.ms, a.class))
 	}
-	line := fmt.Sprintf("drv %s bind=%s special=%s T=%d | %s", path, map[bool]string{true: "0", false: "fixed"}[bind == 0], special, T.Milliseconds(), strings.Join(ats, " "))
+	dbg := ""
+	if debug {
+		dbg = " debug=on"
+	}
+	line := fmt.Sprintf("drv %s bind=%s special=%s T=%d%s | %s", path, map[bool]string{true: "0", false: "fixed"}[bind == 0], special, T.Milliseconds(), dbg, strings.Join(ats, " "))
 	n := received()
 	if special == "refused" || special == "reset" {
 		n = 1
@@ -119,6 +123,7 @@ func streamDrv(c *ctx) {
 		arr     []arrival
 		special string
 		seed    uint64
+		debug   bool
 	}
 	jobs := []job{}
 	// deterministic part: on every path each class as the only datagram and followed by a valid one
@@ -130,13 +135,14 @@ func streamDrv(c *ctx) {
 			classes = append(classes, "empty") // a zero-length datagram (UDP only: an empty TCP write sends nothing)
 		}
 		for _, cl := range classes {
-			jobs = append(jobs, job{path, 0, []arrival{{8, cl}}, "none", r.U64()})
-			jobs = append(jobs, job{path, 0, []arrival{{8, cl}, {30, "valid"}}, "none", r.U64()})
+			jobs = append(jobs, job{path, 0, []arrival{{8, cl}}, "none", r.U64(), false})
+			jobs = append(jobs, job{path, 0, []arrival{{8, cl}, {30, "valid"}}, "none", r.U64(), false})
+			jobs = append(jobs, job{path, 0, []arrival{{8, cl}}, "none", r.U64(), true}) // the same with the debug flag on
 		}
 	}
 	// a valid reply that arrives in two separately delivered pieces (10 + 54 bytes, 50 ms apart)
 	for _, path := range []string{"tcp", "udp", "broadcast"} {
-		jobs = append(jobs, job{path, 0, []arrival{{8, "part1"}, {58, "part2"}}, "none", r.U64()})
+		jobs = append(jobs, job{path, 0, []arrival{{8, "part1"}, {58, "part2"}}, "none", r.U64(), false})
 	}
 	// a continuous flood of irrelevant datagrams, closer together than the timeout, for three timeouts:
 	// the call must still end one timeout after it was made (no deadline is re-armed by a stray)
@@ -145,7 +151,7 @@ func streamDrv(c *ctx) {
 		for t := int(T.Milliseconds()) * 3 / 10; t < int(T.Milliseconds())*3; t += int(T.Milliseconds()) * 3 / 10 {
 			flood = append(flood, arrival{t, cl})
 		}
-		jobs = append(jobs, job{"broadcast", 0, flood, "none", r.U64()})
+		jobs = append(jobs, job{"broadcast", 0, flood, "none", r.U64(), false})
 	}
 	N := 40 * c.scale
 	for i := 0; i < N; i++ {
@@ -160,7 +166,7 @@ func streamDrv(c *ctx) {
 				special = "none"
 			}
 		}
-		jobs = append(jobs, job{path, 0, genArrivalSeq(r), special, r.U64()})
+		jobs = append(jobs, job{path, 0, genArrivalSeq(r), special, r.U64(), i%4 == 3})
 	}
 	// bind port 0: in parallel
 	type res struct{ line, out string }
@@ -173,7 +179,7 @@ func streamDrv(c *ctx) {
 		go func(i int, j job) {
 			defer wg.Done()
 			defer func() { <-sem }()
-			l, o := drvCase(c, rng.New(j.seed), j.path, j.bind, j.arr, j.special)
+			l, o := drvCase(c, rng.New(j.seed), j.path, j.bind, j.arr, j.special, j.debug)
 			results[i] = res{l, o}
 		}(i, j)
 	}
@@ -185,7 +191,7 @@ func streamDrv(c *ctx) {
 	// (the TCP 4-tuple TIME_WAIT restriction of a fixed source port is finding D14, replayed in `lock`)
 	for i := 0; i < N/4; i++ {
 		path := rng.Pick(r, "broadcast", "udp")
-		l, o := drvCase(c, r, path, freePort(), genArrivalSeq(r), "none")
+		l, o := drvCase(c, r, path, freePort(), genArrivalSeq(r), "none", i%3 == 2)
 		c.w.Emit(l, o, "path/"+path, "bind/fixed", "outcome/"+strings.SplitN(o, " ", 2)[0])
 	}
 	c.w.Notes = append(c.w.Notes, fmt.Sprintf("drv stream: GetCardByID through the real ut0311 driver (timeout %v) against scripted loopback responders on the three paths; arrival sequences of 0..3 datagrams over valid/short/long/wrong-serial/serial-0/wrong-code/wrong-som/malformed, each either early (< 0.45 T) or late (> 1.8 T); TCP accept-and-stall, reset, refused; UDP refused (ICMP); bind port 0 (16 in parallel) and fixed; outcome, time class (<T, =T within %v, >T) and number of requests the responder saw", T, slack))
@@ -218,8 +224,8 @@ func streamLock(c *ctx) {
 			if i%2 == 1 && path != "tcp" {
 				ip1, note = "0.0.0.0", "/first-client-binds-0.0.0.0"
 			}
-			u1 := newRealClient(clientCfg{path, bind, ip1}, serial1, ep1)
-			u2 := newRealClient(clientCfg{path, bind, ""}, serial2, ep2)
+			u1 := newRealClient(clientCfg{path, bind, ip1, false}, serial1, ep1)
+			u2 := newRealClient(clientCfg{path, bind, "", false}, serial2, ep2)
 			var wg sync.WaitGroup
 			var o1, o2 string
 			var e2 time.Duration
@@ -260,9 +266,9 @@ func streamLock(c *ctx) {
 	for _, next := range []string{"udp", "broadcast"} {
 		bind := freePort()
 		refused := fmt.Sprintf("127.0.0.1:%d", freePort())
-		u1 := newRealClient(clientCfg{"tcp", bind, ""}, 1000004, refused)
+		u1 := newRealClient(clientCfg{"tcp", bind, "", false}, 1000004, refused)
 		b := newUDPResponder("127.0.0.1", echo(func() time.Duration { return 10 * time.Millisecond }))
-		u2 := newRealClient(clientCfg{next, bind, ""}, 1000005, b.addr())
+		u2 := newRealClient(clientCfg{next, bind, "", false}, 1000005, b.addr())
 		_, err1 := getCard(u1, 1000004, 444)
 		res, err2 := getCard(u2, 1000005, 555)
 		b.close()
@@ -281,7 +287,7 @@ func streamLock(c *ctx) {
 	{
 		bind := freePort()
 		b := newTCPResponder("127.0.0.1", echo(func() time.Duration { return 5 * time.Millisecond }))
-		u := newRealClient(clientCfg{"tcp", bind, ""}, 1000003, b.addr())
+		u := newRealClient(clientCfg{"tcp", bind, "", false}, 1000003, b.addr())
 		_, err1 := getCard(u, 1000003, 333)
 		_, err2 := getCard(u, 1000003, 333)
 		b.close()
@@ -311,12 +317,12 @@ func streamLeak(c *ctx) {
 			if path == "broadcast" {
 				special = "none"
 			}
-			drvCase(c, r, path, 0, genArrivalSeq(r), special)
+			drvCase(c, r, path, 0, genArrivalSeq(r), special, n%5 == 4)
 			n++
 		}
 		// discovery starts a reader goroutine per call
 		rs := newUDPResponder("127.0.0.1", func(req []byte) []step { return []step{{5 * time.Millisecond, cardReply(1, 1)}} })
-		u := newRealClient(clientCfg{"broadcast", 0, ""}, 1, rs.addr())
+		u := newRealClient(clientCfg{"broadcast", 0, "", false}, 1, rs.addr())
 		u.GetDevices()
 		u.GetDevices()
 		rs.close()
